@@ -171,11 +171,22 @@ theorem execOp_S {s : State} {me : Nat} (op : Op) (rest : List Op) (h : InvS s) 
       simp [RegOK, State.setBc, State.setR, State.R]
   | cadd k v =>
     simp only [execOp]
-    exact post_finish _ _ _ (setCd_S k _ h (fun r hs => h.cdReg r k hs)) (run_setCd _ _ hr)
-  | cwait k =>
-    simp only [execOp]
+    refine post_finish _ _ _ (setCd_S k _ h (fun r hs => ⟨(h.cdReg r k hs).1, ?_⟩)) (run_setCd _ _ hr)
+    have := (h.cdReg r k hs).2
+    simp only [condInsert]
     split
-    · exact post_finish _ _ _ (setCd_S k _ h (fun r hs => h.cdReg r k hs)) (run_setCd _ _ hr)
+    · exact this
+    · simp
+  | cwait k =>
+    simp only [execOp, hfix, ite_true]
+    split
+    · split
+      · rename_i htok
+        -- `me` owns the registration and is running: nobody is suspended in this wait
+        have hno : ∀ r, ¬ susp s r (.cwait k) := fun r hs => by
+          have := (h.cdReg r k hs).1; rw [htok] at this; cases this; exact hr.st hs.1
+        exact post_finish _ _ _ (setCd_S k _ h (fun r hs => absurd hs (hno r))) (run_setCd _ _ hr)
+      · exact post_finish _ _ _ h hr
     · split
       · exact post_finish _ _ _ h hr
       · rename_i hc
@@ -183,12 +194,14 @@ theorem execOp_S {s : State} {me : Nat} (op : Op) (rest : List Op) (h : InvS s) 
           cases ht : (s.cd k).tok with
           | none => rfl
           | some x => simp [ht] at hc
-        have hno : ∀ r, ¬ susp s r (.cwait k) := fun r hs => by have := h.cdReg r k hs; rw [hnone] at this; cases this
+        have hne : (s.cd k).conds ≠ [] := by
+          intro e; apply hc; right; rw [e]; rfl
+        have hno : ∀ r, ¬ susp s r (.cwait k) := fun r hs => by have := (h.cdReg r k hs).1; rw [hnone] at this; cases this
         split
         · exact post_finish _ _ _ (setCd_S k _ h (fun r hs => absurd hs (hno r))) (run_setCd _ _ hr)
         · have h1 : InvS (s.setCd k { s.cd k with tok := some me }) := setCd_S k _ h (fun r hs => absurd hs (hno r))
           refine post_block (block_S (s := s.setCd k { s.cd k with tok := some me }) _ _ h1 (run_setCd _ _ hr) ?_) rfl
-          simp [RegOK, State.setCd]
+          simp [RegOK, State.setCd, hne]
   | cpost k v =>
     simp only [execOp]
     have key : ∃ s1, resumeOpt s (s.cd k).tok = s1 ∧ Woke s s1 ∧
@@ -196,21 +209,28 @@ theorem execOp_S {s : State} {me : Nat} (op : Op) (rest : List Op) (h : InvS s) 
       cases ht : (s.cd k).tok with
       | none =>
         refine ⟨s, rfl, Woke.refl s, ?_⟩
-        intro r hs; have := h.cdReg r k hs; rw [ht] at this; cases this
+        intro r hs; have := (h.cdReg r k hs).1; rw [ht] at this; cases this
       | some t =>
         refine ⟨(resume s t).1, rfl, Woke.resume s t, ?_⟩
         intro r hs1
         have hs := (Woke.resume s t).susp hs1
-        have := h.cdReg r k hs
+        have := (h.cdReg r k hs).1
         rw [ht] at this
         cases this
         exact resume_wakes s t (susp_alive h hs) hs1.1
     obtain ⟨s1, e1, w, hno⟩ := key
     rw [e1]
     have A := fun x => post_finish (.cpost k v) rest .ok (setCd_S k x (w.invS h) (fun r hs => absurd hs (hno r))) (run_setCd k x (w.run hr))
-    have B := fun x (hx : x.tok = (s.cd k).tok) => post_finish (.cpost k v) rest .ok (setCd_S k x h (fun r hs => hx ▸ h.cdReg r k hs)) (run_setCd k x hr)
-    repeat' split
-    all_goals first | exact A _ | exact B _ rfl | exact post_finish _ _ _ h hr
+    have B := fun x (hx : x.tok = (s.cd k).tok) (hc : x.conds ≠ []) =>
+      post_finish (.cpost k v) rest .ok (setCd_S k x h (fun r hs => ⟨hx ▸ (h.cdReg r k hs).1, hc⟩)) (run_setCd k x hr)
+    split
+    · cases hall : (s.cd k).all <;> simp only [ite_true, Bool.false_eq_true, ite_false, List.isEmpty_nil]
+      · exact A _
+      · split
+        · exact A _
+        · rename_i hne
+          exact B _ rfl (by intro e; apply hne; have e2 : (s.cd k).conds.erase v = [] := e; rw [e2]; rfl)
+    · exact post_finish _ _ _ h hr
   | join t =>
     simp only [execOp]
     split
